@@ -93,7 +93,7 @@ def candidates_expr(prog):
             if c.ty == e.ty:
                 repls.append("child")
                 break
-        if e.ty[0] in ("int", "bool", "addr", "flag", "dec"):
+        if e.ty[0] in ("int", "bool", "addr", "flag", "dec", "bytesm"):
             repls.append("zero")
             if e.ty[0] == "int":
                 repls.append("one")
